@@ -167,4 +167,7 @@ def get_ast(func):
     if not isinstance(node, (ast.FunctionDef, ast.AsyncFunctionDef)):
         # eg. a lambda: its source lines are the statement it is part of
         return None
+    if node.name != code.co_name:
+        # eg. a lambda written in the parameter list of that def
+        return None
     return node
